@@ -334,10 +334,33 @@ impl ProtoWorld {
     }
 
     /// SetupChannel on the channel handler.
+    /// SetupChannel through a channel handler for a (peer, dbid) that was never announced with
+    /// NewChannel (or whose stub is gone): the signer answers "channel does not exist".  `bad`: 0 a
+    /// well-formed setup, 1 a holder contest delay out of range, 2 a counterparty delay out of range.
+    pub fn setup_unannounced(&mut self, spec: &ChanSpec, bad: u8) -> Out<()> {
+        let (mut setup, _cp) = self.make_setup(spec);
+        match bad % 3 {
+            1 => setup.holder_selected_contest_delay = 3000,
+            2 => setup.counterparty_selected_contest_delay = 3000,
+            _ => {}
+        }
+        let msg = self.setup_msg(&setup);
+        let h = self.root.for_new_client(900 + spec.dbid, PubKey(peer_id(spec.peer)), spec.dbid);
+        let bytes = msg.inner().as_vec();
+        let msg = msgs::from_vec(bytes).expect("well-formed request survives the wire");
+        self.requests += 1;
+        crate::props::proto::unit(pcall(|| h.handle(msg)))
+    }
+
     pub fn setup_chan(&mut self, ci: usize) -> Out<()> {
         let s = self.chans[ci].setup.clone();
+        let msg = self.setup_msg(&s);
+        self.setup_chan_with(ci, msg)
+    }
+
+    fn setup_msg(&self, s: &ChannelSetup) -> Message {
         let cpp = &s.counterparty_points;
-        let msg = Message::SetupChannel(msgs::SetupChannel {
+        Message::SetupChannel(msgs::SetupChannel {
             is_outbound: s.is_outbound,
             channel_value: s.channel_value_sat,
             push_value: s.push_value_msat,
@@ -365,7 +388,11 @@ impl ProtoWorld {
                     _ => vec![0x10, 0x00],
                 }
             }),
-        });
+        })
+    }
+
+    fn setup_chan_with(&mut self, ci: usize, msg: Message) -> Out<()> {
+        let s = self.chans[ci].setup.clone();
         match self.request(To::Chan(ci), msg) {
             Out::Ok(rep) => {
                 assert!(rep.as_any().downcast_ref::<msgs::SetupChannelReply>().is_some());
